@@ -267,6 +267,11 @@ def pw_text(rng, nchars, widths=(1, 2, 3, 4)):
     return "".join(out)
 
 
+def pw_latin1_text(rng, nchars):
+    """non-ASCII text that every single-byte western code page can encode (differs between utf-8 and latin-1 bytes)"""
+    return "".join(rng.choice("éüäößñçÉÜàèêîôû") if rng.random() < 0.6 else rng.choice("abcXYZ019") for _ in range(max(1, nchars)))
+
+
 def is_utf8(b):
     try:
         b.decode("utf-8")
